@@ -381,8 +381,20 @@ def run(ctx: vlib.Ctx):
     for s in num_pool:
         owners.append((s, "pynum"))
         reqs.append({"op": "py_number", "s": s})
+    from octave_mcp.core.constraints import DateConstraint
+    ymd_pool = sorted(set(DATE_SAMPLES + [d + t for d in DATE_SAMPLES[:4] for t in TIME_SAMPLES[:4]] + ["2024 -01 -15", "2024-02-30", "1900-02-29", "2024-06-31", "2024-09-31",
+                                          "2024-11-31", "2024-11-30", "0000-00-00", "2024-1-01", "2024-01-1", "abcd-ef-gh", "2024-01-15\n", " 2024-01-15", "2024–01–15"]
+                          + ["%04d-%02d-%02d" % (y, m, d) for y in (1, 1999, 2000, 2023, 2024, 2100) for m in (0, 1, 2, 4, 12, 13) for d in (0, 1, 28, 29, 30, 31, 32)]))
+    for s in ymd_pool:
+        owners.append((s, "ymd"))
+        reqs.append({"op": "valid_ymd", "s": s})
     replies = drv.batch_par(reqs)
     for (own, what), rep in zip(owners, replies):
+        if what == "ymd":
+            real = bool(DateConstraint().evaluate(own, "F").valid)
+            if rep.get("m") != real:
+                ctx.corr_disagreements.append({"case": {"date_text": own}, "view": "DATE constraint on a string value (Spec/Calendar.validYMD)", "model": rep.get("m"), "impl": real})
+            continue
         if what == "pynum":
             real = bool(npat and re.fullmatch(npat, own))
             if rep.get("m") != real:
@@ -421,6 +433,11 @@ def run(ctx: vlib.Ctx):
                 # the Lean theorems say the language is exactly the listed texts; the real grammar disagrees
                 ctx.corr_disagreements.append({"case": case, "view": "language of the compiled fragment (Lean theorem C13_*_language) vs enumeration of the real grammar",
                                                "model": "exactly the members", "impl": r.get("language")})
+        if r["kind"] == "NUMBER" and npat:
+            bad = [rec["t"] for rec in r["texts"] if not re.fullmatch(npat, rec.get("full_text", rec["t"])) and "…" not in rec["t"]]
+            if bad:
+                ctx.corr_disagreements.append({"case": case, "view": "every derivation of the NUMBER fragment fully matches the reader's NUMBER token pattern (theorem C13_number_language)",
+                                               "model": "all match", "impl": bad[:5]})
         if not r["texts"]:
             ctx.case(case, nontrivial=False)
         for rec in r["texts"]:
